@@ -587,7 +587,7 @@ class ConcurrentVector {
     auto newEnd = std::move(pos + 1, const_iterator(e), it);
     // The last element has been moved from and is no longer part of the vector.
     newEnd->~T();
-    return newEnd;
+    return it;
   }
 
   /**
@@ -617,7 +617,7 @@ class ConcurrentVector {
       tail->~T();
     } while (e_it != tail);
     size_.fetch_sub(len, std::memory_order_relaxed);
-    return e_it;
+    return it;
   }
 
   /**
